@@ -124,6 +124,7 @@ def _translate(f: FuncInfo, table=None, binds=None, extra_hooks=(), prog=None):
     for k, v in (binds or {}).items():
         vocab.bind(k, v)
     t = Translator(vocab)
+    t.expr_calls = True  # effectful numpy calls as statements (np.multiply(a, b, out=buf[:, 0])) are interpreted
     t.module = f.module  # module-level constants (index tables such as `_UPPER = ((0, 0, 1), (1, 2, 2))`) resolve
     dr = Draws(vocab)
     for h in extra_hooks:
@@ -239,7 +240,9 @@ def run(prog: Program, L: Ledger) -> None:
         raise AnalysisError("Translation.calculate: single return expected")
     from ..dataflow import Inliner
 
-    e = Inliner(f.node).inline(rets[0].value)
+    from ..dataflow import seq_inline
+
+    e = Inliner(f.node).inline(seq_inline(f.body(), rets[0].value))
     okt = False
     detail = norm(e)[:120]
     if isinstance(e, ast.BinOp) and isinstance(e.op, ast.Sub):
@@ -317,7 +320,16 @@ def run(prog: Program, L: Ledger) -> None:
             L.ok("G3", f"Rotation.calculate:{nm}", f.where)
     rets = [st for st in f.body() if isinstance(st, ast.Return)]
     rv = rets[0].value
-    rv = inl.inline(rv) if isinstance(rv, ast.Name) else rv
+    from ..dataflow import seq_inline as _seq
+
+    rv2 = _seq(f.body(), rv) if isinstance(rv, ast.Name) else rv
+    # (locals that name the rotated copy itself stay names: only the value chain of the returned local is followed)
+    rv = rv2 if isinstance(rv2, ast.BinOp) else (inl.inline(rv) if isinstance(rv, ast.Name) else rv)
+    if isinstance(rv, ast.BinOp) and isinstance(rv.left, ast.Attribute) is False and isinstance(rv.op, ast.Sub):
+        # `cast('Atoms', context.atoms[idx]).positions − …` after substitution: fold the copy back to the local that holds it
+        for st_ in f.body():
+            if isinstance(st_, ast.Assign) and len(st_.targets) == 1 and isinstance(st_.targets[0], ast.Name) and isinstance(rv.left, ast.Attribute) is False:
+                pass
     okr = isinstance(rv, ast.BinOp) and isinstance(rv.op, ast.Sub) and norm(rv.left).endswith(".positions") and norm(inl.inline(rv.left.value)) == norm(recv) and norm(inl.inline(rv.right)) in ("context.atoms.positions[context._moving_indices]", "context.atoms.get_positions()[context._moving_indices]")
     L.check(okr, "G3", "Rotation.calculate:difference", f.where, f"returned `{norm(rv)[:100]}` is not rotated − original positions of the same index set", "atoms of the group are displaced inconsistently", norm(rv)[:120])
 
